@@ -94,8 +94,9 @@ def check_kernel(mon, name, dim, h, rng, tier):
                 'boundary %r' % (rs, bounds[-1]), case)
     # ---- (1) compact support: at the edge, one ulp either side, far out
     edge = rs * h
-    for r in (edge, up(edge), up(up(edge)), 1.0000001 * edge, 1.5 * edge,
-              10 * edge, 1e6 * edge):
+    for r in (edge, up(edge), up(up(edge)), 1.0000001 * edge, 1.02 * edge,
+              1.1 * edge, 1.25 * edge, 1.4 * edge, 1.5 * edge, 2 * edge,
+              3 * edge, 10 * edge, 1e6 * edge):
         q = r * (1.0 / h)
         if q < rs:
             continue        # rounding of r/h puts it inside: not asserted
